@@ -66,15 +66,12 @@ Proof. intros H. unfold body. unfold refs in H.
   - f_equal. apply fold_left_ext_in. intros acc x Hx.
     assert (Hx' : In x (rk ++ callable)) by (apply in_or_app; left; exact Hx).
     rewrite (H x Hx' KBkm inp acc). destruct fixed; [reflexivity|]. apply H. exact Hx'.
-  - assert (E1 : fold_left (fun acc d => rec1 KDec d inp acc) indecs [] = fold_left (fun acc d => rec2 KDec d inp acc) indecs []).
-    { apply fold_left_ext_in. intros acc x Hx. apply H. apply in_or_app. left. exact Hx. }
-    rewrite E1.
-    set (e3 := inputs_into G ins inp _).
+  - set (e3 := inputs_into G ins inp _).
     assert (E2 : fold_left (fun acc d => rec1 KDec d e3 acc) encs [] = fold_left (fun acc d => rec2 KDec d e3 acc) encs []).
-    { apply fold_left_ext_in. intros acc x Hx. apply H. apply in_or_app. right. apply in_or_app. left. exact Hx. }
+    { apply fold_left_ext_in. intros acc x Hx. apply H. apply in_or_app. left. exact Hx. }
     rewrite E2.
     assert (E3 : forall a, fold_left (fun acc d => rec1 KDec d e3 acc) outs a = fold_left (fun acc d => rec2 KDec d e3 acc) outs a).
-    { intros a. apply fold_left_ext_in. intros acc x Hx. apply H. apply in_or_app. right. apply in_or_app. right. exact Hx. }
+    { intros a. apply fold_left_ext_in. intros acc x Hx. apply H. apply in_or_app. right. exact Hx. }
     rewrite E3. reflexivity. Qed.
 
 (* ---------- the table ---------- *)
@@ -248,10 +245,7 @@ Proof. unfold body. unfold refs in rec_keys, svc_names, rec_irrel. unfold own_na
   - f_equal. apply fold_left_ext_in. intros acc x Hx.
     assert (Hx' : In x (rk ++ callable)) by (apply in_or_app; left; exact Hx).
     rewrite (rec_irrel x Hx' KBkm acc). destruct fixed; [reflexivity|]. apply rec_irrel. exact Hx'.
-  - assert (E1 : fold_left (fun acc d => rec KDec d inp1 acc) indecs [] = fold_left (fun acc d => rec KDec d inp2 acc) indecs []).
-    { apply fold_left_ext_in. intros acc x Hx. apply rec_irrel. apply in_or_app. left. exact Hx. }
-    rewrite E1.
-    assert (E2 : forall a, fold_left (fun acc nm => set nm (getv nm inp1) acc) (dec_names G indecs) a = fold_left (fun acc nm => set nm (getv nm inp2) acc) (dec_names G indecs) a).
+  - assert (E2 : forall a, fold_left (fun acc nm => set nm (getv nm inp1) acc) (dec_names G indecs) a = fold_left (fun acc nm => set nm (getv nm inp2) acc) (dec_names G indecs) a).
     { intros a. apply fold_left_ext_in. intros acc nm Hnm. unfold getv. rewrite (inputs_agree nm); [reflexivity|].
       apply own_in. right. apply in_or_app. right. exact Hnm. }
     rewrite E2.
@@ -426,10 +420,8 @@ Proof. intros HT Hin E step. unfold step. rewrite (table_fixpoint fixed G order 
 (* A decision service returns its output decisions' values: the encapsulated and output decisions are evaluated on the
    input context the service builds (its input data, and its input decisions as parameters taken from the caller's input). *)
 Definition service_input (G : graph) (step : kind -> N -> env -> env -> env) (ins indecs : list N) (inp : env) : env :=
-  let idr := fold_left (fun acc d => step KDec d inp acc) indecs [] in
   let idn := dec_names G indecs in
-  let e1 := fold_left (fun acc nm => set nm (getv nm idr) acc) idn [] in
-  let e2 := fold_left (fun acc nm => set nm (getv nm inp) acc) idn e1 in
+  let e2 := fold_left (fun acc nm => set nm (getv nm inp) acc) idn [] in
   inputs_into G ins inp e2.
 
 Theorem service_outputs fixed G order id name ins indecs encs outs inp out : topo_ok G order = true -> In id order ->
@@ -444,10 +436,10 @@ Theorem service_outputs fixed G order id name ins indecs encs outs inp out : top
   end.
 Proof. intros HT Hin E step e3 results. unfold step. rewrite (table_fixpoint fixed G order id KSvc inp out HT Hin). unfold body at 1. rewrite E. cbv zeta.
   fold (service_input G (spec_step eval fixed G order) ins indecs inp). fold step. fold e3.
-  assert (Hr : forall l, incl l (indecs ++ encs ++ outs) -> forall d, In d l -> In d order \/ find d G = None).
+  assert (Hr : forall l, incl l (encs ++ outs) -> forall d, In d l -> In d order \/ find d G = None).
   { intros l Hl d Hd. apply (Topo_refs G order (topo_ok_Topo _ _ HT) id Hin). unfold refs. rewrite E. apply Hl. exact Hd. }
-  unfold step. rewrite (fold_decisions fixed G order encs e3 HT); [|apply Hr; apply incl_appr, incl_appl, incl_refl].
-  rewrite (fold_decisions fixed G order outs e3 HT); [|apply Hr; apply incl_appr, incl_appr, incl_refl].
+  unfold step. rewrite (fold_decisions fixed G order encs e3 HT); [|apply Hr; apply incl_appl, incl_refl].
+  rewrite (fold_decisions fixed G order outs e3 HT); [|apply Hr; apply incl_appr, incl_refl].
   reflexivity. Qed.
 
 (* contexts built by set_entry have distinct names *)
